@@ -24,6 +24,7 @@ type OblResult struct {
 	FailRes  Result
 	Serves   []string
 	Disagree bool
+	FailedVCs []string
 	exec     *Exec
 }
 
@@ -110,7 +111,9 @@ func (x *Exec) buildQuery(o *Obligation, depth int) *Query {
 			}
 		}
 	}
-	return &Query{Name: o.Name, Assumes: assumes, Goal: o.Goal}
+	goal := o.Goal
+	assumes, goal = expandQuantifiers(assumes, goal)
+	return &Query{Name: o.Name, Assumes: assumes, Goal: goal}
 }
 
 var vcCache sync.Map // hash -> Result
@@ -208,6 +211,7 @@ func (p *Program) verifyFunc(fn *ssa.Function, fc *FuncContract, opts verifyOpts
 				}
 				continue
 			}
+			or.FailedVCs = append(or.FailedVCs, fmt.Sprintf("path %d at %s: %s", o.PathID, o.Pos, j.res.Status))
 			if or.Failing == nil {
 				or.Failing = o
 				or.FailRes = j.res
